@@ -267,13 +267,7 @@ func (c *CheckCtx) run() int {
 	if len(fns) == 0 && c.P.Post == nil {
 		return c.fail(2, "no harness functions match %s", c.P.FnRe)
 	}
-	timeout := 60000
-	if c.Tier == "thorough" {
-		timeout = 600000
-	}
-	if c.P.TimeoutMs != nil {
-		timeout = c.P.TimeoutMs(c.Tier)
-	}
+	timeout := c.timeoutMs()
 	var runs []*HarnessRun
 	if only := os.Getenv("GOSYM_ONLY"); only != "" {
 		ore := regexp.MustCompile(only)
@@ -561,7 +555,7 @@ func (c *CheckCtx) timeoutMs() int {
 	if c.P.TimeoutMs != nil {
 		timeout = c.P.TimeoutMs(c.Tier)
 	}
-	return timeout
+	return int(envInt("GOSYM_TIMEOUT_MS", int64(timeout)))
 }
 
 func round3(f float64) float64 { return float64(int64(f*1000)) / 1000 }
